@@ -256,7 +256,19 @@ var malCases = []malCase{
 	{"provide", "opt-as", func(m *Mal) malCall {
 		as := [][]interface{}{{nil}, {42}, {new(int)}, {new(MJ)}, {new(MI), new(MJ)}, {new(MI)}, {(*MI)(nil), nil}, {}, {new(error)}, {new(interface{})}}
 		fns := []interface{}{func() *M0 { return &M0{} }, func() MS0 { return nil }, func() (*M0, *M2) { return &M0{}, &M2{} }, func() MI { return &M0{} }}
-		return malCall{fn: fns[pick(m, len(fns))], popts: []dig.ProvideOption{dig.As(as[(m.Arg/4)%len(as)]...)}}
+		po := []dig.ProvideOption{dig.As(as[(m.Arg/4)%len(as)]...)}
+		// malformed As next to other options, in either order
+		switch (m.Arg / 64) % 5 {
+		case 1:
+			po = append(po, dig.Group("mg"))
+		case 2:
+			po = append([]dig.ProvideOption{dig.Group("mg")}, po...)
+		case 3:
+			po = append(po, dig.Name("a"))
+		case 4:
+			po = append([]dig.ProvideOption{dig.Export(true)}, po...)
+		}
+		return malCall{fn: fns[pick(m, len(fns))], popts: po}
 	}},
 	{"provide", "opt-name-group", func(m *Mal) malCall {
 		var o []dig.ProvideOption
